@@ -5,7 +5,8 @@ CONSTANTS
   ConnOf <- ConnOfHuge
   Items <- ItemsHuge
   WaitForConns = TRUE
+  Aging = TRUE
   DrainGracefully = TRUE
 INVARIANTS ResolveLate NoLoss
-PROPERTIES NoAcceptAfter AcceptedCompletes ResolveEventually
+PROPERTIES NoAcceptAfter AcceptedCompletes ResolveEventually EndResolves
 CHECK_DEADLOCK FALSE
